@@ -22,6 +22,21 @@ from quansino.moves.cell import CellMove
 from quansino.moves.composite import CompositeMove
 from quansino.moves.displacement import DisplacementMove, HamiltonianDisplacementMove
 from quansino.moves.exchange import ExchangeMove
+
+# harness-side instrumentation (nothing in /repo is touched): what every elementary exchange move did in a trial, in order
+ACTS = []
+_exch_call = ExchangeMove.__call__
+
+
+def _logged_exchange_call(self, context):
+    n0 = len(context.atoms)
+    r = _exch_call(self, context)
+    n1 = len(context.atoms)
+    ACTS.append("ins" if n1 > n0 else "del" if n1 < n0 else "none")
+    return r
+
+
+ExchangeMove.__call__ = _logged_exchange_call
 from quansino.operations.cell import AnisotropicDeformation, IsotropicDeformation, ShapeDeformation
 from quansino.operations.displacement import Ball, Box, Rotation, Sphere, Translation, TranslationRotation
 
@@ -60,10 +75,11 @@ class PairPot(Calculator):
         pos = atoms.positions
         n = len(pos)
         e = 0.02 * float(np.sum(pos * pos)) / (1 + n)
+        w = 1.0 + 0.03125 * atoms.numbers          # species-dependent: swapping two atoms of different kinds changes the energy
         for i in range(n):
             d = pos[i + 1:] - pos[i]
             r2 = np.sum(d * d, axis=1) + 0.5
-            e += float(np.sum(1.0 / r2))
+            e += float(np.sum(w[i] * w[i + 1:] / r2))
         if atoms.cell.rank == 3:
             e += 0.001 * atoms.get_volume()
         return e
@@ -316,7 +332,7 @@ class Sim:
                 # the generator yields the name BEFORE the trial runs: finish bookkeeping of the previous one
                 if cur is not None:
                     self.finish(cur, trials, probe)
-                cur = {"name": name, "pre": self.snapshot(), "eval_index": len(self.eval_snaps), "step": mc.step_count}
+                cur = {"name": name, "pre": self.snapshot(), "eval_index": len(self.eval_snaps), "step": mc.step_count, "acts_from": len(ACTS)}
                 fs = p.get("force_swap")
                 if fs:
                     # documented one-shot pre-selections: the first exchange move deletes a chosen particle, the second inserts one
@@ -343,6 +359,7 @@ class Sim:
         cur["at_eval"] = self.eval_snaps[cur["eval_index"]] if len(self.eval_snaps) > cur["eval_index"] else None
         cur["n_evals_in_trial"] = len(self.eval_snaps) - cur["eval_index"]
         cur["post"] = self.snapshot()
+        cur["acts"] = ACTS[cur.pop("acts_from", len(ACTS)):]
         if probe:
             cur["post_evals"] = getattr(self.atoms.calc, "evaluations", None)
             cur["energy"] = self.energy_probe()
